@@ -23,10 +23,10 @@ Inv == R.kind = "text" =>
          /\ (R.accepted => R.items = e.items)                      \* the tree lists exactly what was written, in order
          /\ (~R.accepted => R.stdoutLen = 0 /\ R.stderrLen > 0)    \* anything else is rejected with an error
 \* long texts: k repetitions of a sentence (each a complete piece: the language is a list and the lexer modes are back at
-\* their start after a complete sentence -- LexerMC) followed by a suffix: accepted iff sentence + suffix is, with
+\* their start after a complete sentence and a newline, which ends a trailing comment -- LexerMC) followed by a suffix: accepted iff sentence + suffix is, with
 \* k x items(sentence) + items(suffix) entries in the tree
 LongInv == R.kind = "long" =>
-             LET b == Expected(R.base)  e == Expected(R.base \o <<32>> \o R.suffix) IN
+             LET b == Expected(R.base)  e == Expected(R.base \o <<10>> \o R.suffix) IN
              /\ b.ok                                     \* (the driver repeats a sentence)
              /\ R.terminated
              /\ R.accepted = e.ok
